@@ -16,6 +16,7 @@ from __future__ import annotations
 import contextlib
 import hashlib
 import io as _io
+import logging
 import math
 import os
 import random
@@ -37,9 +38,12 @@ try:
 except ImportError:  # pragma: no cover
     gen_csvdir = None
 
+logging.getLogger("pewlib").addHandler(logging.NullHandler())  # the library logs warnings about optional columns
+logging.getLogger("pewlib").propagate = False
+
 NAN_TOK = tok(float("nan"))
 ROOT = "R"  # the case directory in model path strings
-NU_XY = False  # Nu directories with x/y columns (loader returns a spotsize TUPLE; convert to .npz crashes — reported, undecided)
+NU_XY = True  # Nu directories with x/y columns: the loader reports an (x, y) spot spacing, stored as a SpotConfig since bcc3a26
 
 AG_ELEMENTS = [("P", 31), ("Ca", 44), ("Fe", 56), ("Cu", 63), ("Zn", 66), ("Eu", 153), ("W", 182), ("Pb", 208)]
 NPZ_ELEMENTS = ["A", "B", "C1", "Eu153", "P31", "Ca44", "Fe56", "x_y", "Zn66"]
@@ -342,7 +346,24 @@ def grid_tokens(a):
 
 
 def cfg_tokens(c):
-    return [ctok(c.spotsize), ctok(c.speed), ctok(c.scantime)]
+    """the stored form: what Config.to_array / SpotConfig.to_array keep"""
+    if type(c).__name__ == "SpotConfig":
+        return ["spot", ctok(c.spotsize), ctok(c.spotsize_y)]
+    return ["raster", ctok(c.spotsize), ctok(c.speed), ctok(c.scantime)]
+
+
+def param_tokens(params):
+    if params is None:
+        return [None, None, None]
+    out = []
+    for key in ("spotsize", "speed", "scantime"):
+        if key not in params:
+            out.append(None)
+        elif isinstance(params[key], tuple):
+            out.append([ctok(v) for v in params[key]])
+        else:
+            out.append(ctok(params[key]))
+    return out
 
 
 def canon_files(files):
@@ -373,7 +394,7 @@ class C20(Prop):
                    "text does not say otherwise",
                    "stack inputs share their element names (np.concatenate cannot join different structured dtypes); --elements lists "
                    "have no duplicates; derived output names are pairwise distinct",
-                   "Nu directories with x/y columns are not generated (NU_XY): the loader returns a spotsize tuple that Config cannot store"]
+                   ]
 
     # ------------------------------------------------------------------ generator
     def gen_input(self, rng, k, fmt, stem, sub, shape=None, elements=None, spikes=False):
@@ -402,15 +423,19 @@ class C20(Prop):
             # one element list for all inputs: text images (always `_element_`) or npz files with the same names
             kind = force.get("stack_fmt", rng.choice(["npz", "npz", "txt", "mixed"]))
             els = rng.sample(NPZ_ELEMENTS, rng.choice([1, 2, 2, 3]))
+            first = None
             for k in range(n):
                 sh = shape if (equal and shape) else None
                 if kind == "txt":
                     fmt, e = "txt", None
                 elif kind == "npz":
                     fmt, e = "npz", els
-                else:  # text images stack with each other whatever their delimiter and suffix
-                    fmt, e = "txt", None
+                elif k == 0:  # mixed: an instrument format first (its config is the one kept), npz files with its names after it
+                    fmt, e = rng.choice([f for f in ("agilent", "thermo", "csvdir") if f in names]), None
+                else:
+                    fmt, e = "npz", first["elements"]
                 s = self.gen_input(rng, k, fmt, stems[k], subs[k], sh, e)
+                first = first or s
                 shape = shape or (s["h"], s["w"])
                 inputs.append(s)
         else:
@@ -427,9 +452,13 @@ class C20(Prop):
                 inputs.append(s)
         fmt_out = force.get("format", rng.choice([".npz", ".npz", ".npz", ".csv", ".csv", ".vtk", ".txt" if rng.random() < 0.15 else ".npz"]))
         # ---- output
-        okind = force.get("okind") or rng.choice(
-            (["file", "file", "file", "file_upper", "bad_suffix", "dir", "omitted", "missing_dir"] if cmd == "stack" else
-             ["omitted", "omitted", "dir", "dir", "dir", "file", "file", "file_upper", "bad_suffix", "missing_dir"]))
+        if cmd == "stack":
+            kinds = ["file"] * 10 + ["file_upper"] * 2 + ["bad_suffix", "dir", "omitted", "missing_dir"]
+        elif n == 1:
+            kinds = ["omitted"] * 4 + ["dir"] * 4 + ["file"] * 4 + ["file_upper"] * 2 + ["bad_suffix", "missing_dir"]
+        else:
+            kinds = ["omitted"] * 10 + ["dir"] * 14 + ["file"] * 2 + ["file_upper", "bad_suffix", "missing_dir"]
+        okind = force.get("okind") or rng.choice(kinds)
         good = fmt_out if fmt_out in (".npz", ".csv", ".vtk") else ".npz"
         output = None
         if okind == "dir":
@@ -651,8 +680,7 @@ class C20(Prop):
             d = {"path": model_path(rel), "exists": True, "h": data.shape[0], "w": data.shape[1],
                  "fields": [{"name": n, "data": [t for row in grid_tokens(data[n]) for t in row]} for n in names],
                  "config": None if config is None else cfg_tokens(config),
-                 "params": [None, None, None] if params is None else
-                           [ctok(params[key]) if key in params else None for key in ("spotsize", "speed", "scantime")],
+                 "params": param_tokens(params),
                  "filtered": None}
             if fparams is not None:
                 func, size, thr = fparams
@@ -669,10 +697,10 @@ class C20(Prop):
         if case["missing_input"]:
             dinputs.append({"path": model_path(Path("absent.npz")), "exists": False, "h": 0, "w": 0, "fields": [], "config": None,
                             "params": [None, None, None], "filtered": None})
-        req = {"cmd": cmd, "defaults": cfg_tokens(default), "inputs": dinputs, "format": case["format"],
+        req = {"cmd": cmd, "defaults": cfg_tokens(default)[1:], "inputs": dinputs, "format": case["format"],
                "output": None if out_rel is None else model_path(out_rel), "output_is_dir": out_is_dir}
         if cmd == "convert":
-            req["config"] = None if case["config"] is None else [ctok(x) for x in case["config"]]
+            req["config"] = None if case["config"] is None else ["raster"] + [ctok(x) for x in case["config"]]
             req["elements"] = case["elements"]
         elif cmd == "filter":
             req["elements"] = case["elements"]
